@@ -291,9 +291,10 @@ func (s *Server) readMessage() (json.RawMessage, error) {
 			break
 		}
 
-		// Parse Content-Length header
-		if strings.HasPrefix(line, "Content-Length:") {
-			value := strings.TrimSpace(strings.TrimPrefix(line, "Content-Length:"))
+		// Parse Content-Length header (header field names are case-insensitive)
+		const name = "Content-Length:"
+		if len(line) >= len(name) && strings.EqualFold(line[:len(name)], name) {
+			value := strings.TrimSpace(line[len(name):])
 			contentLength, err = strconv.Atoi(value)
 			if err != nil {
 				return nil, fmt.Errorf("invalid Content-Length: %v", err)
